@@ -142,6 +142,8 @@ pub enum Forge {
     ContentLen(u64),
     /// a content block for an id that was never started / after its end
     OrphanContent,
+    /// compression layer: one brotli stream expanding to more than a block (n extra MiB of zeros), followed by more data
+    OversizedBlock(u32),
     NoEndMarker,
 }
 
@@ -257,6 +259,23 @@ pub fn build_hostile(c: &Case, k: &K) -> (Vec<u8>, Vec<[u8; 32]>) {
         let mut out = Vec::new();
         let mut sizes = Vec::new();
         let mut last = 0u32;
+        if let Some(Forge::OversizedBlock(extra)) = &c.forge {
+            // the writer never produces this: a single stream that keeps going after BLOCK bytes of output
+            // (a started file whose single content block is longer than BLOCK, so that a reader
+            // does ask for more than BLOCK bytes of it; the genuine streams follow)
+            let n = k.block as usize + ((*extra as usize) << 20) / (if k.is_prod() { 1 } else { 1024 });
+            let mut big = vec![0u8];
+            big.extend_from_slice(&0xF00D_u64.to_le_bytes());
+            big.extend_from_slice(&3u64.to_le_bytes());
+            big.extend_from_slice(b"big");
+            big.push(1);
+            big.extend_from_slice(&0xF00D_u64.to_le_bytes());
+            big.extend_from_slice(&(n as u64).to_le_bytes());
+            big.resize(big.len() + n, 0);
+            let cdata = fmt::brotli_compress(&big, 1);
+            sizes.push(cdata.len() as u32);
+            out.extend(cdata);
+        }
         for piece in stream.chunks(k.block as usize) {
             let cdata = fmt::brotli_compress(piece, 1);
             sizes.push(cdata.len() as u32);
@@ -389,6 +408,7 @@ pub fn cases(ctx: &Ctx) -> Vec<Case> {
     for n in [10u32, 1000, 20_000, 100_000, 400_000] {
         forges.push(Forge::DeepOffsets(n));
     }
+    forges.extend([Forge::OversizedBlock(1), Forge::OversizedBlock(2)]);
     for f in &forges {
         for p in &small {
             if matches!(f, Forge::DeepOffsets(_)) && p.files.len() < 2 {
@@ -399,7 +419,7 @@ pub fn cases(ctx: &Ctx) -> Vec<Case> {
             if matches!(f, Forge::DeepOffsets(n) if *n > 20_000 && p.layers != 0) {
                 continue;
             }
-            if matches!(f, Forge::SizesLen(_) | Forge::SizesCount(_) | Forge::SizesEntry(..) | Forge::SizesLast(_) | Forge::SizesEmpty) && p.layers & 2 == 0 {
+            if matches!(f, Forge::SizesLen(_) | Forge::SizesCount(_) | Forge::SizesEntry(..) | Forge::SizesLast(_) | Forge::SizesEmpty | Forge::OversizedBlock(_)) && p.layers & 2 == 0 {
                 continue;
             }
             v.push(Case { base: Base::Prog(p.clone()), forge: Some(f.clone()), muts: vec![], ops_seed: rng.next() });
